@@ -77,7 +77,8 @@ func lastAddr(p netip.Prefix) netip.Addr {
 	return netip.AddrFrom4(a)
 }
 
-func addN(a netip.Addr, n int) netip.Addr {
+// AddN returns a+n.
+func AddN(a netip.Addr, n int) netip.Addr {
 	x := a.As4()
 	v := uint32(x[0])<<24 | uint32(x[1])<<16 | uint32(x[2])<<8 | uint32(x[3])
 	v += uint32(n)
@@ -94,8 +95,8 @@ func NewUniverse(c Config) *Universe {
 	nfBase := netip.PrefixFrom(hb, c.NFBits).Masked().Addr()
 	u.NF = netip.PrefixFrom(nfBase, c.NFBits)
 	u.NFBcast = lastAddr(u.NF)
-	u.HostIP = addN(nfBase, 1)
-	u.RouterIP = addN(u.Home.Addr(), 1)
+	u.HostIP = AddN(nfBase, 1)
+	u.RouterIP = AddN(u.Home.Addr(), 1)
 	u.MACs[MOwn] = fb.MAC{0x02, 0, 0, 0, 0, 0x01}
 	u.MACs[MRouter] = fb.MAC{0x02, 0, 0, 0, 0, 0x02}
 	for i := 0; i < 5; i++ {
@@ -125,13 +126,13 @@ func NewUniverse(c Config) *Universe {
 	add(netip.MustParseAddr("169.254.7.7"), "linklocal4") // 10
 	// a handful of home addresses below the netfilter subnet and a few inside it
 	for i := 2; i <= 6; i++ {
-		a := addN(u.Home.Addr(), i)
+		a := AddN(u.Home.Addr(), i)
 		if u.Home.Contains(a) && a != u.HomeBcast && a != u.HostIP && a != u.RouterIP {
 			add(a, fmt.Sprintf("home+%d", i))
 		}
 	}
 	for i := 2; i <= 4; i++ {
-		a := addN(u.NF.Addr(), i)
+		a := AddN(u.NF.Addr(), i)
 		if u.NF.Contains(a) && a != u.NFBcast && a != u.HostIP && a != u.RouterIP {
 			add(a, fmt.Sprintf("nf+%d", i))
 		}
